@@ -148,6 +148,9 @@ func (mediaType *MediaType) Validate(ctx context.Context, opts ...ValidationOpti
 					if err := v.Validate(ctx); err != nil {
 						return fmt.Errorf("example %s: %w", k, err)
 					}
+					if v.Value.Value == nil && v.Value.ExternalValue != "" {
+						continue // the value lives elsewhere: there is nothing here to check against the schema
+					}
 					if err := validateExampleValue(ctx, v.Value.Value, schema.Value); err != nil {
 						return fmt.Errorf("example %s: %w", k, err)
 					}
